@@ -46,6 +46,9 @@ def family():
                 k += 1
     fam.append(("syn:keywords", "interface org.example.kw\n\ntype Kw (type: int, struct: string, fn: bool, match: ?int, in: int, loop: []int)\n\n"
                                 "method Do(type: int, in: string, ref: bool) -> (struct: int, mod: ?string)\n\nerror Bad (type: string, move: int)\n"))
+    kws = ("as break const continue crate else enum extern false fn for if impl in let loop match mod move mut pub ref return self static struct super trait true type unsafe use where while "
+           "async await dyn abstract become box do final macro override priv typeof unsized virtual yield try").split()
+    fam.append(("syn:keyword-methods", "interface org.example.kwm\n\n" + "\n\n".join("method %s(a: int) -> (b: int)" % (k[0].upper() + k[1:]) for k in kws) + "\n"))
     fam.append(("syn:everything", "# doc\ninterface org.example.all\n\n# a struct\ntype S (b: bool, i: int, f: float, s: string, o: object, t: S2, e: En, ob: ?bool, ai: []int, ms: [string]string, set: [string]())\n\n"
                                   "type S2 (x: int)\n\ntype En (a, b, c)\n\nmethod A() -> ()\n\nmethod B(s: S) -> (s: S)\n\nmethod C(x: ?S2, y: [](q: int)) -> (z: (k, l))\n\n"
                                   "error E1 ()\n\nerror E2 (s: S, n: ?int)\n"))
@@ -72,7 +75,7 @@ def main():
     os.makedirs(src)
     with open(os.path.join(crate, "Cargo.toml"), "w") as f:
         f.write('[package]\nname = "vx-genaudit"\nversion = "0.1.0"\nedition = "2018"\n[workspace]\n[lib]\npath = "src/lib.rs"\n[dependencies]\n'
-                'varlink = { path = "%s/varlink" }\nserde = "1.0.102"\nserde_derive = "1.0.102"\nserde_json = "1.0.41"\n' % repo)
+                'varlink = { path = "%s/varlink" }\nvarlink_derive = { path = "%s/varlink_derive" }\nserde = "1.0.102"\nserde_derive = "1.0.102"\nserde_json = "1.0.41"\n' % (repo, repo))
     lock = os.path.join(VERIF, "replay", "Cargo.lock")
     if os.path.exists(lock) and not os.path.exists(os.path.join(crate, "Cargo.lock")):
         shutil.copy(lock, os.path.join(crate, "Cargo.lock"))
@@ -87,6 +90,19 @@ def main():
         with open(os.path.join(src, "m%d.rs" % i), "w") as f:
             f.write(p.stdout)
         mods.append(i)
+    # the procedural-macro front end (varlink_derive): the same text reaches the generator through `varlink!` / `varlink_file!`; module index 9000+k in the report
+    extra = {}
+    macro_defs = [
+        ("macro:doc-comment-right-after-the-quote", 'varlink_derive::varlink!(mac0, r#"# Example service\ninterface org.example.mac0\n\n# Returns the same string\nmethod Ping(ping: string) -> (pong: string)\n"#);'),
+        ("macro:leading-newline", 'varlink_derive::varlink!(mac1, r#"\n# doc\ninterface org.example.mac1\n\nmethod Ping(ping: string) -> (pong: string)\n"#);'),
+        ("macro:two-hashes", 'varlink_derive::varlink!(mac2, r#"## Example service\ninterface org.example.mac2\n\ntype T (a: int, b: ?[]string)\n\nmethod M(t: T) -> (r: [string]T)\n\nerror E (why: string)\n"#);'),
+        ("macro:file", 'varlink_derive::varlink_file!(mac3, "%s/examples/ping/src/org.example.ping.varlink");' % repo),
+    ]
+    for k, (name, text) in enumerate(macro_defs):
+        with open(os.path.join(src, "m%d.rs" % (9000 + k)), "w") as f:
+            f.write(text + "\n")
+        extra[9000 + k] = (name, text)
+        mods.append(9000 + k)
     with open(os.path.join(src, "lib.rs"), "w") as f:
         f.write("#![allow(warnings)]\n" + "".join("pub mod m%d;\n" % i for i in mods))
     c = subprocess.run(["cargo", "check", "--offline", "--message-format=json", "-q"], cwd=crate,
@@ -115,11 +131,12 @@ def main():
         return
     if bad:
         i = sorted(bad)[0]
-        compile_fail = {"definition": fam[i][0], "source": fam[i][1], "rustc_error": bad[i][0],
-                        "failing": [{"definition": fam[j][0], "source": fam[j][1], "errors": bad[j]} for j in sorted(bad)]}
+        look = lambda j: extra[j] if j in extra else fam[j]
+        compile_fail = {"definition": look(i)[0], "source": look(i)[1], "rustc_error": bad[i][0],
+                        "failing": [{"definition": look(j)[0], "source": look(j)[1], "errors": bad[j]} for j in sorted(bad)]}
     sample = {"definition": fam[len(fam) // 2][0], "source": fam[len(fam) // 2][1]}
     emit("C09.total-bounded", total_fail is not None, len(fam), total_fail, definitions=len(fam), tier=tier, sample=sample)
-    emit("C09.compiles-bounded", compile_fail is not None, len(mods), compile_fail, definitions=len(fam), tier=tier, sample=sample)
+    emit("C09.compiles-bounded", compile_fail is not None, len(mods), compile_fail, definitions=len(fam) + len(extra), macro_invocations=len(extra), tier=tier, sample=sample)
 
 
 if __name__ == "__main__":
